@@ -78,8 +78,8 @@ class Control:
 def run_property(pid: str, world: World) -> Checker:
     mod = importlib.import_module(f'sa.props.{pid.lower()}')
     ck = Checker(pid)
-    ctx = Ctx(world)
     try:
+        ctx = Ctx(world)
         mod.run(ctx, ck)
         _common_rules(pid, ctx, ck)
     except Incomplete as exc:
